@@ -1,5 +1,5 @@
 (* C04 - operations on one object never change another object (store-model part).
-   reach sb h = the state after CreateForWrite (superblock version sb) and the arbitrary history h, for the
+   reach bp ba sb h = the state after CreateForWrite (superblock version sb) and the arbitrary history h, for the
    repaired code (cfg_fixed); targets s o = the extents (owner, kind) operation o may rewrite in place. *)
 From HV Require Import Base.Prelude Model.Store Proofs.Store Proofs.StoreOps Proofs.StoreInv Proofs.StoreProps.
 Local Open Scope N_scope.
@@ -12,8 +12,8 @@ Print Assumptions C04_header_rewrite_within_reservation.
 
 (* every byte range written by an operation lies inside an extent owned by its targets
    (the object itself, the parent group's heap / symbol node) or inside an extent allocated by this operation *)
-Theorem C04_writes_within_owned : forall sb h o,
-  let s := reach sb h in let s' := fst (step s o) in
+Theorem C04_writes_within_owned : forall bp ba sb h o,
+  let s := reach bp ba sb h in let s' := fst (step s o) in
   ovf (st s') = false ->
   forall w, In w (wlog (st s')) ->
   exists e, In e (exts (st s')) /\ start e <= fst w /\ fst w + snd w <= ext_end e /\
@@ -22,8 +22,8 @@ Proof. exact C04_writes_within_owned_l. Qed.
 Print Assumptions C04_writes_within_owned.
 
 (* frame: every extent outside the targets is byte-for-byte untouched by the operation *)
-Theorem C04_frame : forall sb h o,
-  let s := reach sb h in let s' := fst (step s o) in
+Theorem C04_frame : forall bp ba sb h o,
+  let s := reach bp ba sb h in let s' := fst (step s o) in
   ovf (st s') = false ->
   forall e', In e' (exts (st s)) -> targets s o (owner e') (kind_of e') = false ->
   forall w, In w (wlog (st s')) -> fst w + snd w <= start e' \/ ext_end e' <= fst w.
@@ -31,8 +31,8 @@ Proof. exact C04_frame_l. Qed.
 Print Assumptions C04_frame.
 
 (* in particular all extents of every other object survive and are untouched *)
-Theorem C04_frame_other_objects : forall sb h o y,
-  let s := reach sb h in let s' := fst (step s o) in
+Theorem C04_frame_other_objects : forall bp ba sb h o y,
+  let s := reach bp ba sb h in let s' := fst (step s o) in
   ovf (st s') = false -> (forall k, targets s o y k = false) ->
   forall e', In e' (exts (st s)) -> owner e' = y ->
   In e' (exts (st s')) /\ forall w, In w (wlog (st s')) -> fst w + snd w <= start e' \/ ext_end e' <= fst w.
@@ -48,7 +48,7 @@ Theorem C04_refuted_exact_size_headers :
 Proof. exact C04_refuted_exact_size_headers_l. Qed.
 Print Assumptions C04_refuted_exact_size_headers.
 
-(* /repo without notes/fixes/reserve-link-headers.patch: hard link to a soft link overwrites the next extent *)
+(* /repo before 0d24a11 (link object headers at exact size): hard link to a soft link overwrites the next extent *)
 Theorem C04_refuted_exact_size_link_headers :
   let s := run (init cfg_repo 2) hist_link in let o := OpHardLink 0 1 false 2 in
   snd (step s o) = true /\
